@@ -142,7 +142,11 @@ Reach(ns, d) == ReachR(ns, SpreadsIn(ns, d), {})
 
 DefinedFragNames(ns) == {ns[i].name : i \in {j \in Ids(ns) : ns[j].k = "FRAG"}}
 
-VarsOfLit(l) == IF l.t = "var" THEN {l.v} ELSE {}
+RECURSIVE VarsOfLit(_)
+VarsOfLit(l) == IF l.t = "var" THEN {l.v}
+                ELSE IF l.t = "list" THEN UNION {VarsOfLit(l.v[i]) : i \in 1..Len(l.v)}
+                ELSE IF l.t = "obj" THEN UNION {VarsOfLit(l.v[i][2]) : i \in 1..Len(l.v)}
+                ELSE {}
 VarsOfNode(n) == UNION ({VarsOfLit(n.args[i].val) : i \in 1..Len(n.args)} \cup {VarsOfLit(n.dirs[i].val) : i \in 1..Len(n.dirs)})
 VarsInDef(ns, d) == UNION {VarsOfNode(ns[i]) : i \in {j \in Ids(ns) : DefOf(ns, j) = d}}
 VarsUsedBy(ns, op) == VarsInDef(ns, op) \cup UNION {VarsInDef(ns, f) : f \in FragIdsOf(ns, Reach(ns, op))}
